@@ -27,6 +27,7 @@ FRAGS = "fragmentation::Fragments"
 
 def run(ctx):
     f_panic(ctx)
+    f_flags(ctx)
     """All three rules are decided on the formulas extracted from the two functions (ea/symx.py, effects mode): the
     results do not depend on the names of locals, on statement order or on how the arithmetic is spelled."""
     from .. import symx as S
@@ -242,3 +243,71 @@ def f_panic(ctx):
     fr = prog.one("protocols::ipv4::fragmentation::fragment")
     st = PC.scan(ctx, "P-PANIC", [fr.key], lambda k: k.startswith("elvis_core::protocols::ipv4::fragmentation"), PC.load_table("panic_c10.json"))
     ctx.require(st["sites"] >= 10, "P-PANIC: only %d sites enumerated on the fragmentation path" % st["sites"])
+
+
+def f_flags(ctx):
+    """F-FLAGS: the DF / MF accessors of ControlFlags, reduced to formulas and evaluated on every value of the flag byte
+    (bit 1 = DF, bit 0 = MF as the decoder stores them): may_fragment <=> DF clear, is_last_fragment <=> MF clear, whatever
+    the other bit is; the setters change exactly their own bit; new() puts both bits in place."""
+    from .. import symx as S
+    prog = ctx.prog()
+    probs = []
+    n = 0
+
+    def formula(name):
+        b = prog.method("ControlFlags", name)
+        t, _ = S.extract(prog, b, effects=True)
+        return b, t
+
+    def byte_env(b, v, extra=None):
+        me = S.params_of(b)[0]
+        env = {("field", me, "0"): v, ("field", ("deref", me), "0"): v}
+        env.update(extra or {})
+        return env
+    for name, bit in (("may_fragment", 1), ("is_last_fragment", 0)):
+        try:
+            b, t = formula(name)
+        except (S.Unsupported, F.AnchorMissing) as e:
+            ctx.require(False, "F-FLAGS: cannot extract ControlFlags::%s (%s)" % (name, e))
+        for v in range(8):
+            try:
+                r = S.concrete(t, byte_env(b, v), 8)
+            except (KeyError, S.Panics) as e:
+                probs.append("ControlFlags::%s cannot be evaluated for flags %s (%r)" % (name, bin(v), e))
+                break
+            n += 1
+            if bool(r) != (((v >> bit) & 1) == 0):
+                probs.append("ControlFlags::%s() is %s for the flag bits %s (DF=%d MF=%d): it must depend on %s alone%s" % (
+                    name, bool(r), format(v, "03b"), (v >> 1) & 1, v & 1, "DF" if bit == 1 else "MF",
+                    " - an oversize fragment that forbids fragmentation is split instead of discarded" if name == "may_fragment" else ""))
+                break
+    for name, bit in (("set_may_fragment", 1), ("set_is_last_fragment", 0)):
+        try:
+            b, t = formula(name)
+        except (S.Unsupported, F.AnchorMissing) as e:
+            ctx.require(False, "F-FLAGS: cannot extract ControlFlags::%s (%s)" % (name, e))
+        me, val = S.params_of(b)[0], S.params_of(b)[1]
+        for v in range(4):
+            for flag in (False, True):
+                fin = None
+                for leaf in [t]:
+                    if leaf[0] == "state":
+                        fin = dict(leaf[2]).get(me)
+                if fin is None:
+                    probs.append("ControlFlags::%s does not write the flags" % name)
+                    break
+                newv = S.with_fields(fin)[1].get("0")
+                try:
+                    r = int(S.concrete(newv, byte_env(b, v, {val: flag}), 8))
+                except (KeyError, S.Panics, TypeError) as e:
+                    probs.append("ControlFlags::%s cannot be evaluated (%r)" % (name, e))
+                    break
+                n += 1
+                want = (v & ~(1 << bit)) | ((0 if flag else 1) << bit)
+                if r != want:
+                    probs.append("ControlFlags::%s(%s) turns the flag bits %s into %s, expected %s" % (name, flag, format(v, "02b"), format(r, "02b"), format(want, "02b")))
+                    break
+    ctx.require(n >= 16 or probs, "F-FLAGS: only %d evaluations" % n)
+    b = prog.method("ControlFlags", "may_fragment")
+    (ctx.bad if probs else ctx.ok)("F-FLAGS", "F-FLAGS:ControlFlags", b.span, "; ".join(probs[:2]) if probs else
+        "may_fragment <=> DF clear and is_last_fragment <=> MF clear on all flag values; the setters change their own bit only (%d evaluations)" % n)
